@@ -677,6 +677,7 @@ class Mir:
     # ------------------------------------------------------------ schema (field names, enums)
     def _scan_schema(self, txt):
         self.struct_fields = {}
+        self.struct_fields_all = {}
         for m in re.finditer(r" = ([A-Za-z_][\w:]*?)(?:::<[^{}]*?>)? \{ ((?:\w+: (?:move|copy|const) [^{}]*?)) \};\n", txt):
             path = m.group(1)
             tyname = path.split("::")[-1]
@@ -685,6 +686,8 @@ class Mir:
             prev = self.struct_fields.get(tyname)
             if prev is None or len(names) > len(prev):
                 self.struct_fields[tyname] = names
+            if names not in self.struct_fields_all.setdefault(tyname, []):
+                self.struct_fields_all[tyname].append(names)
         # enums from source
         self.enum_discr = {}
         self.enums = {
@@ -723,8 +726,13 @@ class Mir:
                         self.enums[name] = vs
                         self.enum_discr[name] = ds
 
-    def field_index(self, ty, name):
-        return self.struct_fields[ty].index(name)
+    def field_index(self, ty, name, nfields=None):
+        """index of a named field; same-named structs of different modules are told apart by arity + name"""
+        cands = self.struct_fields_all.get(ty) or ([self.struct_fields[ty]] if ty in self.struct_fields else [])
+        for names in cands:
+            if (nfields is None or len(names) == nfields) and name in names:
+                return names.index(name)
+        raise KeyError(f"{ty}.{name}")
 
     # ------------------------------------------------------------ call resolution
     def resolve(self, callee):
@@ -745,6 +753,15 @@ class Mir:
             else:
                 ty, tr = _type_last(inner), None
             cands = self.methods.get((ty, rest), [])
+            if not cands and ty.startswith("["):
+                cands = self.methods.get(("[T]", rest), [])  # blanket impl over slices
+            if len(cands) > 1:
+                segs_t = strip_generics(parts[0].strip().lstrip("&").replace("mut ", "")).split("::")
+                if len(segs_t) >= 2:
+                    modp = segs_t[-2]
+                    narrowed = [(t, n) for (t, n) in cands if re.search(r"(^|::)" + re.escape(modp) + r"::<impl at ", n) or re.search(r"/" + re.escape(modp) + r"\.rs:", n)]
+                    if narrowed:
+                        cands = narrowed
             if tr is not None:
                 exact = [n for (t, n) in cands if t == tr]
                 if exact:
@@ -773,6 +790,12 @@ class Mir:
         segs = c.split("::")
         if len(segs) >= 2:
             cands = self.methods.get((segs[-2], segs[-1]), [])
+            if len(cands) > 1 and len(segs) >= 3:
+                # same type name in several modules (kind::bearing::Basic, kind::rolling::Basic, ...): use the module path
+                modp = segs[-3]
+                narrowed = [(t, n) for (t, n) in cands if re.search(r"(^|::)" + re.escape(modp) + r"::<impl at ", n) or re.search(r"/" + re.escape(modp) + r"\.rs:", n)]
+                if narrowed:
+                    cands = narrowed
             inh = [n for (t, n) in cands if t is None]
             if inh:
                 return inh[0]
